@@ -592,20 +592,29 @@ def search(rng, case):
 
 
 MANIFEST = {
-    "level_text": ("Machine-checked Coq proofs about the executable model of the function pipeline (Model/Ensemble.v): for all "
-                   "columns, weights and failure masks the model's mean equals the weighted mean over the surviving realizations "
-                   "with renormalised weights and its variance the N/(N-1)-corrected weighted variance over them (the stddev "
-                   "estimator is its square root), the too-few abort is taken iff fewer than two weights are non-zero, the weighted "
-                   "objective is the dot product with the objective weights, function j depends only on column j, its own weight row "
-                   "and the failure flags (factorisation), the weight row in force is the mapped filter's output or else the "
-                   "configured weights also next to filtered rows, and batches are evaluated vector by vector (layout/chunk index "
-                   "law).  The model is tied to the code on every run by an in-Coq correspondence against the real "
-                   "EnsembleEvaluator.calculate on sampled configurations (filters, estimator maps, NaN masks, batches)."),
-    "level_note": ("Trusted/modelled-not-verified: the weight vector each realization filter returns is an input observed from the real "
-                   "plug-in (what it must be is C04/C05); float rounding is bridged by the tolerance |x-m| <= 1e-12 S + 1e-9 |m|; the "
-                   "standard deviation is compared via its square; Python driver and literal printer.  Cases where no surviving "
-                   "realization carries weight (0/0) are outside the quantifier: only flags, weights and the other functions are compared. "
-                   "All theorems print 'Closed under the global context'."),
-    "technique": "Coq proof (list induction over Q on an executable Gallina model structured like the code) + in-Coq differential correspondence with the real EnsembleEvaluator",
+    "level_text": ("Machine-checked Coq proofs (Props/C01.v, all for arbitrary ensemble sizes, masks and weights, by induction) about the "
+                   "executable model of the function pipeline, Model/Ensemble.v -- the very definitions Chk_C01.check_case evaluates "
+                   "against the real EnsembleEvaluator.calculate on every run.  C01_mean_spec: the model's mean equals dot(f, w)/sum(w) "
+                   "over the surviving realizations (undefined, never a number, when no survivor carries weight).  C01_var_spec: its "
+                   "variance equals N/(N-1) * sum w^_i (f_i - m)^2 over the survivors, N = survivors with positive weight (the "
+                   "reported stddev is compared through its square).  C01_var_too_few: the TOO_FEW_REALIZATIONS abort is taken iff "
+                   "fewer than _MIN_STDDEV_REALIZATIONS (regenerated from the source) surviving weights are non-zero.  "
+                   "C01_survivor_values: NaN propagation leaves the survivors' rows untouched.  C01_weighted_objective: the weighted "
+                   "objective is dot(objective weights, objectives).  C01_factorisation / C01_nothing_else: function j equals its "
+                   "estimator applied to column j, its own weight row and the failure flags, so other columns, rows and estimator "
+                   "entries cannot influence it.  C01_rows_in_force: after _calculate_filtered_realization_weights the row of function "
+                   "j is the output of the filter its index map names and the configured weights otherwise, also next to filtered rows "
+                   "(F01).  C01_layout / C01_batch_invariance: the request layout is the full (vector, realization) product and the "
+                   "result for vector b of a batch is the result of evaluating b alone.  C01_example: non-vacuity."),
+    "level_note": ("All 10 theorems print 'Closed under the global context'; none is partial.  Hypotheses: the weight row has one entry "
+                   "per realization; C01_var_spec additionally assumes non-negative weights (the configuration guarantees it) and at "
+                   "least two positive surviving weights (the complementary cases are C01_var_too_few and the 0/0 case).  "
+                   "Trusted / modelled-not-verified: that Model/Ensemble.v is the code is not proved but checked on every run by the "
+                   "in-Coq correspondence on sampled configurations (plus an exhaustive 2x2 grid in the thorough tier); the weight "
+                   "vector each realization filter returns is an input observed from the real plug-in (what it must be is C04/C05); "
+                   "float rounding is bridged by the tolerance |x-m| <= 1e-12 S + 1e-9 |m|; the square root of the stddev estimator is "
+                   "not modelled (squares are compared); Python driver and literal printer.  Cases where no surviving realization "
+                   "carries weight (0/0) are outside the quantifier: only flags, weights and the other functions are compared."),
+    "technique": "Coq proof (list induction over Q with setoid rewriting under ==, on an executable Gallina model structured like the code) + in-Coq differential correspondence with the real EnsembleEvaluator",
     "design_ref": "DESIGN.md section 4, C01",
 }
